@@ -60,13 +60,17 @@ Inductive corruption :=
 | KSplice (js : list N)      (* header, nonce, then the sealed blocks js in that order (drop / repeat / reorder) *)
 | KAppend (n : N)            (* n foreign bytes appended *)
 | KOtherPass                 (* read with another passphrase *)
-| KFramePrefix.              (* a well-formed file (right key, one nonce, blocks cut at blockSize) whose frame is only the
+| KFramePrefix
+| KListing (stored strays unparsable : N) (zero_stored : bool) (listed listed_zero : N).
+   (* not a corruption: a directory with [stored] store files (zero_stored: one of them is the nil UUID) and [strays] other
+      regular files of which [unparsable] have names that are no IDs; List returned [listed] entries, [listed_zero] of
+      them the zero ID *)              (* a well-formed file (right key, one nonce, blocks cut at blockSize) whose frame is only the
                                 first c_clen bytes of a longer frame: what Get sees of a file cut at a block boundary *)
 
 Definition corrupt (L : N) (c : corruption) : sfile :=
   let f := intact L in
   match c with
-  | KIntact | KOtherPass | KFramePrefix => f
+  | KIntact | KOtherPass | KFramePrefix | KListing _ _ _ _ _ _ => f
   | KTrunc p => s_take p f
   | KFlip p => s_take p f ++ mkP SJunk 0 1 :: s_drop (p + 1) f
   | KSplice js => mkP SHdr 0 header_len :: mkP SNonce 0 nonce_len :: map (blk_piece L) js
@@ -144,9 +148,19 @@ Definition agree (p : pclass) (o : obs) : bool :=
 (* c_fsize: size of the file as written by Set (before the corruption) *)
 Record case := mkCase { c_id : N; c_clen : N; c_fsize : N; c_kind : corruption; c_obs : obs }.
 
+(* List: one entry per regular file; names that are no IDs give the zero ID; if List filtered zero IDs they would be missing *)
+Definition listing_ok (stored strays unparsable : N) (zero_stored : bool) (listed listed_zero : N) : bool :=
+  let zeros := unparsable + (if zero_stored then 1 else 0) in
+  if list_yields_every_file then (listed =? stored + strays) && (listed_zero =? zeros)
+  else (listed =? stored + strays - zeros) && (listed_zero =? 0).
+
 Definition case_ok (c : case) : bool :=
+  match c_kind c with
+  | KListing st sy un zs l lz => listing_ok st sy un zs l lz
+  | _ =>
   (c_fsize c =? file_size (c_clen c)) && (s_len (intact (c_clen c)) =? c_fsize c)
-  && agree (predict (c_clen c) (c_kind c)) (c_obs c).
+  && agree (predict (c_clen c) (c_kind c)) (c_obs c)
+  end.
 
 Definition mismatches (cs : list case) : list N :=
   map c_id (filter (fun c => negb (case_ok c)) cs).
